@@ -10,6 +10,7 @@ package gen
 // Struct types are built with reflect.StructOf, the rest with SliceOf/ArrayOf/PointerTo/MapOf.
 
 import (
+	"encoding/base64"
 	"fmt"
 	"math/rand/v2"
 	"reflect"
@@ -28,6 +29,8 @@ var builtinTypes = map[string]reflect.Type{
 	"uint32": reflect.TypeFor[uint32](), "uint64": reflect.TypeFor[uint64](),
 	"float32": reflect.TypeFor[float32](), "float64": reflect.TypeFor[float64](),
 }
+
+var byteType = reflect.TypeFor[byte]()
 
 type typeParser struct {
 	s   string
@@ -333,6 +336,14 @@ func fit(r *rand.Rand, t reflect.Type, c *FitCfg, sb *strings.Builder, depth int
 	case reflect.Pointer:
 		fit(r, t.Elem(), c, sb, depth)
 	case reflect.Slice:
+		if t.Elem() == byteType { // []byte: a Base64 string
+			b := make([]byte, r.IntN(c.MaxElems+3))
+			for i := range b {
+				b[i] = byte(r.IntN(256))
+			}
+			sb.WriteString(strconv.Quote(base64.StdEncoding.EncodeToString(b)))
+			return
+		}
 		n := r.IntN(c.MaxElems + 1)
 		sb.WriteByte('[')
 		for i := 0; i < n; i++ {
@@ -343,6 +354,14 @@ func fit(r *rand.Rand, t reflect.Type, c *FitCfg, sb *strings.Builder, depth int
 		}
 		sb.WriteByte(']')
 	case reflect.Array:
+		if t.Elem() == byteType { // [N]byte: a Base64 string of exactly N bytes
+			b := make([]byte, t.Len())
+			for i := range b {
+				b[i] = byte(1 + r.IntN(255))
+			}
+			sb.WriteString(strconv.Quote(base64.StdEncoding.EncodeToString(b)))
+			return
+		}
 		n := t.Len()
 		if c.ShortArray && r.IntN(3) == 0 {
 			n = r.IntN(n + 1)
